@@ -20,7 +20,7 @@ RULE = {"C08": "generated robot definitions: 1-4 components (own and inherited a
 REQUIRED = {"C08": {"rel:plain": 200, "rel:prefixed": 100, "rel:both": 50, "rel:falsy": 100, "rel:subclass": 50, "rel:bool-for-int": 30,
                     "rel:generic-alias": 30, "rel:preset-class": 50, "rel:preset-init": 50, "rel:private": 50, "rel:component-earlier": 50,
                     "rel:component-later": 50, "rel:absent": 50, "rel:wrong-type": 50, "rel:wrong-type-prefixed": 20, "rel:none": 20, "rel:ctor-param": 50,
-                    "rel:inherited-annotation": 50, "rel:mode-target": 50, "startup-failed-as-expected": 100,
+                    "rel:inherited-annotation": 50, "rel:mode-target": 50, "rel:one-class-two-components": 50, "startup-failed-as-expected": 100,
                     "identity-checked-in-setup": 300, "identity-checked-after-init": 300, "untouched-checked": 100}}
 ASSUMPTIONS = {"C08": ["a robot attribute whose value is None is generated only where both readings of 'if there is none' give the same outcome",
                        "when several erroneous attributes are present, any of their error types may surface first"]}
@@ -84,8 +84,13 @@ def gen_case(rng, uid):
     attr_no = [0]
     allow_error = rng.random() < 0.3
 
+    odd_names = ["log", "ger", "og", "l", "logg", "robot", "comp", "name", "cls", "self_", "mode", "auto", "exec"]
+    rng.shuffle(odd_names)
+
     def fresh():
         attr_no[0] += 1
+        if odd_names and rng.random() < 0.15:
+            return odd_names.pop()        # ordinary short names (some are fragments of 'logger', 'components', ...)
         return f"a{attr_no[0]}"
 
     def place(name, desc):
@@ -170,6 +175,22 @@ def gen_case(rng, uid):
                 if a["name"] in seen:
                     lst.remove(a)
                 seen.add(a["name"])
+    twin = None
+    if ncomp >= 2 and rng.random() < 0.25:
+        # two components that are instances of ONE class; its constructor takes a flag (delivered under the component
+        # prefix) and sets an annotated attribute only when the flag is true - so one instance has a value already and
+        # the other one must be injected
+        a_, b_ = cnames[0], cnames[1]
+        tname = fresh()
+        ann = rng.choice(["T0", "T2", "int", "str"])
+        place(tname, rng.choice(GOOD[ann]))
+        flags = [True, False]
+        rng.shuffle(flags)
+        place(f"{a_}_flag", ("lit", flags[0]))
+        place(f"{b_}_flag", ("lit", flags[1]))
+        twin = {"a": a_, "b": b_, "attr": tname, "ann": ann, "flags": {a_: flags[0], b_: flags[1]}, "preset": ["lit", "mine"]}
+        comps[b_] = {"attrs": [], "base_attrs": [], "ctor": [], "same_class_as": a_}
+        comps[a_] = {"attrs": [], "base_attrs": [], "ctor": []}
     modes = []
     for j in range(rng.choice([0, 0, 1, 2])):
         mn = f"md{j}{uid}"
@@ -182,7 +203,7 @@ def gen_case(rng, uid):
             if a["rel"] == "component" and order.index(a["name"]) > order.index(cn):
                 a["rel"] = "component-later-ctor"
     split = rng.randrange(0, len(order) + 1)
-    return {"uid": uid, "order": order, "split": split, "components": comps, "robot_attrs": robot_attrs, "modes": modes}
+    return {"uid": uid, "order": order, "split": split, "components": comps, "robot_attrs": robot_attrs, "modes": modes, "twin": twin}
 
 
 # ----------------------------------------------------------------------------- oracle (from the statement)
@@ -258,7 +279,21 @@ def run_case(acc, case):
     STATE["order"] = case["order"]
     STATE["robot"] = None
     presets = {}
+    twin = case.get("twin")
     for cn, c in comps.items():
+        if c.get("same_class_as"):
+            continue
+        if twin and cn == twin["a"]:
+            def t_init(self, flag: bool, _tw=twin):
+                self._ctor_args = {"flag": flag}
+                self._flag = flag
+                if flag:
+                    self.__dict__[_tw["attr"]] = "mine"
+                log.append(("ctor", "twin", {"flag": flag}))
+            tb = {"__init__": t_init, "execute": lambda self: None, "setup": lambda self: on_setup(self, "twin"),
+                  "__annotations__": {twin["attr"]: twin["ann"]}}
+            _COMP_CLASSES[cn] = type("Ctwin" + cn, (), tb)
+            continue
         body = {}
         base_body = {}
         ann, base_ann = {}, {}
@@ -289,8 +324,13 @@ def run_case(acc, case):
         body["__annotations__"] = ann
         cls = type("C" + cn, bases, body)
         _COMP_CLASSES[cn] = cls
+    for cn, c in comps.items():
+        if c.get("same_class_as"):
+            _COMP_CLASSES[cn] = _COMP_CLASSES[c["same_class_as"]]
     # resolve annotation names to real types now that all component classes exist
     for cn, c in comps.items():
+        if c.get("same_class_as"):
+            continue
         cls = _COMP_CLASSES[cn]
         cls.__annotations__ = {k: ann_of(v) for k, v in cls.__annotations__.items()}
         for b in cls.__bases__:
@@ -369,6 +409,13 @@ def run_case(acc, case):
                 if r[0] == "error":
                     errors.add(r[1])
                 acc.ev("rel:mode-target")
+        if twin:
+            acc.ev("rel:one-class-two-components")
+            for cn in (twin["a"], twin["b"]):
+                if twin["flags"][cn]:
+                    expected[(cn, "twinattr", twin["attr"])] = ("keep", "mine")
+                else:
+                    expected[(cn, "twinattr", twin["attr"])] = ("inject", robot_objs[twin["attr"]])
         acc.checks += 1
         if errors:
             if exc is None:
@@ -398,6 +445,18 @@ def run_case(acc, case):
             if tgt is None:
                 acc.violation("C08/owner-missing", f"{owner} was not created", case, {})
                 return
+            if kind == "twinattr":
+                got = vars(tgt).get(name, ABSENT)
+                acc.checks += 1
+                if r[0] == "keep" and got != "mine":
+                    acc.violation("C08/preset-overwritten", f"{owner}.{name} was set by __init__ (flag true) but now is {got!r} "
+                                  "(the other instance of the same class needed injection)", case, {})
+                    return
+                if r[0] == "inject" and got is not r[1]:
+                    acc.violation("C08/attr-identity", f"{owner}.{name} is {got!r}, expected the robot's {r[1]!r} "
+                                  "(the other instance of the same class had set it in __init__)", case, {})
+                    return
+                continue
             if kind == "ctor":
                 got = tgt._ctor_args.get(name, ABSENT)
                 want = r[1]
@@ -505,7 +564,9 @@ def run_shard(spec):
         run_case(acc, case)
         if i < 2:
             acc.samples.append({"order": case["order"], "split": case["split"],
-                                "components": {k: {kk: [(a["name"], a["ann"], a["rel"]) for a in vv] for kk, vv in v.items()} for k, v in case["components"].items()},
+                                "components": {k: {kk: [(a["name"], a["ann"], a["rel"]) for a in vv] for kk, vv in v.items() if isinstance(vv, list)}
+                                               for k, v in case["components"].items()},
+                                "one_class_two_components": case.get("twin"),
                                 "robot_attrs": {k: v["where"] for k, v in case["robot_attrs"].items()}})
     return acc.result()
 
